@@ -49,16 +49,15 @@ Record InvC (s : state) : Prop := {
   C_none : request s = None -> sent_continue s = false;
   C_ask : forall q, request s = Some q ->
           (a_expect q = true -> g_asked q = true) /\ (g_asked q = true -> In (rid q) (askers s));
-  C_good : forall q, request s = Some q -> ~ In (rid q) (bad s) -> good_cur s q;
+  C_good : forall q, request s = Some q -> good_cur s q;
   C_queued : forall r, In r (requests s) ->
-          a_completed r = true /\ a_empty r = false /\ (~ In (rid r) (bad s) -> g_heads r <= 1);
-  C_cnt : forall i, ~ In i (bad s) -> cnt i (outlog s) <= 1;
-  C_bad : forall i, In i (bad s) -> i < next_id s;
+          a_completed r = true /\ a_empty r = false /\ g_heads r <= 1;
+  C_cnt : forall i, cnt i (outlog s) <= 1;
   C_asked : forall i w, In (TInterim i w) (outlog s) -> In i (askers s);
   C_sending : is_sending s = true -> forall q, request s = Some q -> g_asked q = true /\ a_hf q = true;
   C_nc : (forall m, io s <> IOSend m) -> forall q, request s = Some q -> a_completed q = false;
   C_wait : is_sending s = false -> connected s = true -> close_when_flushed s = false ->
-           requests s = [] -> forall q, request s = Some q -> ~ In (rid q) (bad s) ->
+           requests s = [] -> forall q, request s = Some q ->
            a_hf q = true -> a_expect q = true -> False
 }.
 
@@ -68,32 +67,32 @@ Proof. constructor; simpl; intros; try discriminate; try tauto; auto. Qed.
 Lemma InvC_frame2 : forall s s', InvC s ->
   request s' = request s -> (forall x, In x (requests s') -> In x (requests s)) ->
   sent_continue s' = sent_continue s ->
-  outlog s' = outlog s -> bad s' = bad s -> askers s' = askers s -> next_id s' = next_id s ->
+  outlog s' = outlog s -> askers s' = askers s -> next_id s' = next_id s ->
   is_sending s' = is_sending s -> io s' = io s ->
   (is_sending s' = false -> connected s' = true -> close_when_flushed s' = false -> requests s' = [] ->
      (requests s = [] /\ connected s = true /\ close_when_flushed s = false) \/
-     (forall q, request s = Some q -> ~ In (rid q) (bad s) -> a_hf q = true -> a_expect q = true -> False)) ->
+     (forall q, request s = Some q -> a_hf q = true -> a_expect q = true -> False)) ->
   InvC s'.
 Proof.
-  intros s s' HC E1 E2 E3 E4 E5 E6 E7 E8 Eio E9. destruct HC as [C1 C2 C3 C4 C5 C6 C7 C9 C10 C8].
+  intros s s' HC E1 E2 E3 E4 E6 E7 E8 Eio E9. destruct HC as [C1 C2 C3 C4 C5 C7 C9 C10 C8].
   constructor; rewrite ?E1, ?E3, ?E4, ?E5, ?E6, ?E7, ?E8, ?Eio; auto.
-  - intros q Hq Hb. specialize (C3 q Hq Hb). unfold good_cur in *. rewrite E8, E3, E4. assumption.
-  - intros Hs Hc Hf Hr q Hq Hb Hh He. rewrite <- E8 in Hs.
+  - intros q Hq. specialize (C3 q Hq). unfold good_cur in *. rewrite E8, E3, E4. assumption.
+  - intros Hs Hc Hf Hr q Hq Hh He. rewrite <- E8 in Hs.
     destruct (E9 Hs Hc Hf Hr) as [(R1 & R2 & R3)|R]; [eapply C8; eauto|eapply R; eauto].
 Qed.
 
 (* steps that touch none of the fields InvC reads, except pcs that keep is_sending *)
 Lemma InvC_frame : forall s s', InvC s ->
   request s' = request s -> requests s' = requests s -> sent_continue s' = sent_continue s ->
-  outlog s' = outlog s -> bad s' = bad s -> askers s' = askers s -> next_id s' = next_id s ->
+  outlog s' = outlog s -> askers s' = askers s -> next_id s' = next_id s ->
   is_sending s' = is_sending s ->
   ((forall m, io s' <> IOSend m) -> (forall m, io s <> IOSend m)) ->
   (connected s' = true -> connected s = true) ->
   (close_when_flushed s' = false -> close_when_flushed s = false) -> InvC s'.
 Proof.
-  intros s s' HC E1 E2 E3 E4 E5 E6 E7 E8 Eio E9 E10. destruct HC as [C1 C2 C3 C4 C5 C6 C7 C9 C10 C8].
+  intros s s' HC E1 E2 E3 E4 E6 E7 E8 Eio E9 E10. destruct HC as [C1 C2 C3 C4 C5 C7 C9 C10 C8].
   constructor; rewrite ?E1, ?E2, ?E3, ?E4, ?E5, ?E6, ?E7, ?E8; auto.
-  - intros q Hq Hb. specialize (C3 q Hq Hb). unfold good_cur in *. rewrite E8, E3, E4. assumption.
+  - intros q Hq. specialize (C3 q Hq). unfold good_cur in *. rewrite E8, E3, E4. assumption.
   - intros. eapply C8; eauto.
 Qed.
 
@@ -130,11 +129,11 @@ Proof.
   - destruct (nth_error (active s) i) as [w|] eqn:En; try discriminate.
     destruct w; try discriminate. inv_some.
     destruct (worker_at _ _ _ HA En) as (Hact & -> & Hq).
-    destruct HC as [C1 C2 C3 C4 C5 C6 C7 C9 C10 C8].
+    destruct HC as [C1 C2 C3 C4 C5 C7 C9 C10 C8].
     assert (Es : is_sending (s <| outlog := outlog s ++ [TFinal id] |>) = is_sending s) by reflexivity.
-    constructor; cbn [request requests sent_continue outlog bad askers next_id connected close_when_flushed set eta_state]; auto.
-    + intros q Hq' Hb. apply good_cur_frame with s; auto. intros; apply cnt_final.
-    + intros j Hj. rewrite cnt_final. auto.
+    constructor; cbn [request requests sent_continue outlog askers next_id connected close_when_flushed set eta_state]; auto.
+    + intros q Hq'. apply good_cur_frame with s; auto. intros; apply cnt_final.
+    + intros j. rewrite cnt_final. auto.
     + intros j w Hin. apply in_app_or in Hin. destruct Hin as [Hin|[Hin|[]]]; [eauto|discriminate].
   - destruct (nth_error (active s) i) as [w|] eqn:En; try discriminate.
     destruct w; try discriminate. inv_some.
@@ -143,12 +142,12 @@ Proof.
   - destruct (nth_error (active s) i) as [w|] eqn:En; try discriminate.
     destruct w; try discriminate. destruct (rlock s); try discriminate. inv_some.
     destruct (worker_at _ _ _ HA En) as (Hact & -> & Hq).
-    destruct HC as [C1 C2 C3 C4 C5 C6 C7 C9 C10 C8].
+    destruct HC as [C1 C2 C3 C4 C5 C7 C9 C10 C8].
     assert (Es : is_sending (s <| close_when_flushed := true |> <| requests := [] |>
                                <| active := del_nth 0 (active s) |>) = is_sending s).
     { apply is_sending_eq; auto. simpl. rewrite Hact. reflexivity. }
-    constructor; cbn [request requests sent_continue outlog bad askers next_id connected close_when_flushed set eta_state]; auto.
-    + intros q Hq' Hb. apply good_cur_frame with s; auto.
+    constructor; cbn [request requests sent_continue outlog askers next_id connected close_when_flushed set eta_state]; auto.
+    + intros q Hq'. apply good_cur_frame with s; auto.
     + simpl. tauto.
     + rewrite Es. assumption.
     + intros; discriminate.
@@ -161,45 +160,60 @@ Lemma cnt_interim_snoc : forall i j w l,
   cnt i (l ++ [TInterim j w]) = cnt i l + (if j =? i then 1 else 0).
 Proof. intros. rewrite cnt_snoc. reflexivity. Qed.
 
+(* the object after send_continue, if it stays the current request *)
 Lemma InvC_after_send : forall s s' q w, InvA s -> InvC s ->
   is_sending s = true -> request s = Some q -> requests s = [] ->
   outlog s' = outlog s ++ [TInterim (rid q) w] -> sent_continue s' = true ->
-  request s' = Some (q <| a_completed := false |>) ->
-  bad s' = (if a_completed q then rid q :: bad s else bad s) ->
+  request s' = Some q -> a_completed q = false ->
   requests s' = requests s -> askers s' = askers s -> next_id s' = next_id s ->
+  (forall m, io s' <> IOSend m) ->
   is_sending s' = false -> InvC s'.
 Proof.
-  intros s s' q w HA HC Hs Hq Hrs Eo Esc Er Eb Ers Eas En Hs'.
-  destruct HC as [C1 C2 C3 C4 C5 C6 C7 C9 C10 C8].
-  assert (Hasked : g_asked q = true) by (apply (C9 Hs q Hq)).
-  assert (Hidlt : rid q < next_id s).
-  { pose proof (A_ids s HA) as I. rewrite Hq in I. tauto. }
-  assert (Hnb : forall i, ~ In i (bad s') -> ~ In i (bad s)).
-  { intros i Hi Hin. apply Hi. rewrite Eb. destruct (a_completed q); [right|]; assumption. }
+  intros s s' q w HA HC Hs Hq Hrs Eo Esc Er Ec Ers Eas En Hio' Hs'.
+  destruct HC as [C1 C2 C3 C4 C5 C7 C9 C10 C8].
+  destruct (C9 Hs q Hq) as [Hasked Hhf].
+  pose proof (C3 q Hq) as G. unfold good_cur in G. rewrite Hs in G.
+  destruct G as (G1 & G2 & G3 & G4 & G5 & G6 & G7).
   constructor.
   - rewrite Er. discriminate.
-  - rewrite Er. intros q' Hq'. inv_some. simpl. rewrite Eas. split; [|apply (C2 q Hq)].
-    intros _. assumption.
-  - rewrite Er. intros q' Hq' Hb. inv_some. simpl in Hb.
-    assert (Hc : a_completed q = false).
-    { destruct (a_completed q) eqn:E; [|reflexivity]. exfalso. apply Hb. rewrite Eb. left. reflexivity. }
-    specialize (C3 q Hq (Hnb _ Hb)). unfold good_cur in *. rewrite Hs in C3. rewrite Hs'.
-    destruct C3 as (G1 & G2 & G3 & G4 & G5 & G6 & G7).
-    unfold good_pre, sent_for. simpl. rewrite Esc, Eo, cnt_interim_snoc, Nat.eqb_refl, G1, G2, G3, G5, G6.
+  - rewrite Er. intros q' Hq'. inv_some. rewrite Eas. apply (C2 q' Hq).
+  - rewrite Er. intros q' Hq'. inv_some.
+    unfold good_cur. rewrite Hs'. unfold good_pre, sent_for.
+    rewrite Esc, Eo, cnt_interim_snoc, Nat.eqb_refl, G1, G2, G3, G5, G6, Ec.
     simpl. repeat split; auto; try discriminate.
   - rewrite Ers, Hrs. simpl. tauto.
-  - intros i Hi. rewrite Eo, cnt_interim_snoc. destruct (rid q =? i) eqn:E.
-    + apply Nat.eqb_eq in E. subst i. specialize (C3 q Hq (Hnb _ Hi)). unfold good_cur in C3.
-      rewrite Hs in C3. destruct C3 as (_ & _ & _ & _ & G5 & _). rewrite G5. lia.
-    + specialize (C5 i (Hnb _ Hi)). lia.
-  - intros i Hi. rewrite En. rewrite Eb in Hi. destruct (a_completed q); [destruct Hi as [<-|Hi]|]; auto.
+  - intros i. rewrite Eo, cnt_interim_snoc. destruct (rid q =? i) eqn:E.
+    + apply Nat.eqb_eq in E. subst i. rewrite G5. lia.
+    + specialize (C5 i). lia.
   - intros i w' Hin. rewrite Eas. rewrite Eo in Hin. apply in_app_or in Hin.
     destruct Hin as [Hin|[Hin|[]]]; [eauto|]. inversion Hin; subst. apply (C2 q Hq). assumption.
   - rewrite Hs'. discriminate.
-  - intros _ q' Hq'. rewrite Er in Hq'. inv_some. reflexivity.
-  - intros _ _ _ _ q' Hq' Hb _ He. rewrite Er in Hq'. inv_some. simpl in He, Hb.
-    specialize (C3 q Hq (Hnb _ Hb)). unfold good_cur in C3. rewrite Hs in C3.
-    destruct C3 as (G1 & _). congruence.
+  - intros _ q' Hq'. rewrite Er in Hq'. inv_some. assumption.
+  - intros _ _ _ _ q' Hq' _ He. rewrite Er in Hq'. inv_some. congruence.
+Qed.
+
+(* ... or if it was complete at the end of its header block and leaves at once *)
+Lemma InvC_after_send_gone : forall s s' q w, InvA s -> InvC s ->
+  is_sending s = true -> request s = Some q -> requests s = [] ->
+  outlog s' = outlog s ++ [TInterim (rid q) w] -> sent_continue s' = false ->
+  request s' = None -> a_completed q = true ->
+  (requests s' = [q] /\ a_empty q = false \/ requests s' = []) ->
+  askers s' = askers s -> next_id s' = next_id s ->
+  is_sending s' = false -> InvC s'.
+Proof.
+  intros s s' q w HA HC Hs Hq Hrs Eo Esc Er Ec Ers Eas En Hs'.
+  destruct HC as [C1 C2 C3 C4 C5 C7 C9 C10 C8].
+  pose proof (C3 q Hq) as G. unfold good_cur in G. rewrite Hs in G.
+  destruct G as (G1 & G2 & G3 & G4 & G5 & G6 & G7).
+  constructor; rewrite ?Er; try discriminate; auto.
+  - intros r Hr. destruct Ers as [[E1 E2]| E1]; rewrite E1 in Hr; [|destruct Hr].
+    destruct Hr as [<-|[]]. repeat split; auto. rewrite G6. lia.
+  - intros i. rewrite Eo, cnt_interim_snoc. destruct (rid q =? i) eqn:E.
+    + apply Nat.eqb_eq in E. subst i. rewrite G5. lia.
+    + specialize (C5 i). lia.
+  - intros i w' Hin. rewrite Eas. rewrite Eo in Hin. apply in_app_or in Hin.
+    destruct Hin as [Hin|[Hin|[]]]; [eauto|]. inversion Hin; subst. apply (C2 q Hq). assumption.
+  - rewrite Hs'. discriminate.
 Qed.
 
 Lemma InvC_CWSend : forall s i s' l, InvA s -> InvC s -> step s (CWSend i) = Some (s', l) -> InvC s'.
@@ -228,7 +242,7 @@ Proof.
   pose proof (do_send_spec _ _ _ _ Ed q Eq) as D.
   destruct D as (D1 & D2 & D3 & D4 & D5 & D6 & D7 & D8 & D9 & D10 & D11 & D12 & D13 & D14).
   pose proof (io_complete_spec _ _ _ _ Ec) as S.
-  destruct S as (S1 & S2 & S3 & S4 & S5 & S6 & S7 & S8 & S9 & S10 & S11).
+  destruct S as (S1 & S2 & S3 & S4 & S5 & S6 & S8 & S9 & S10 & S11).
   assert (Hns : existsb is_wsend (active s) = false).
   { destruct (active s) as [|w0 rest] eqn:Eact; [reflexivity|].
     pose proof (A_wk s HA w0) as W. rewrite Eact in W. specialize (W (or_introl eq_refl)).
@@ -270,7 +284,7 @@ Proof.
     + apply is_sending_eq; auto. simpl. rewrite Hact. reflexivity.
     + simpl. intros _ _ _ E. rewrite E in Ec. discriminate.
   - destruct (connected s && wants_continue (s <| requests := rest |>)) eqn:Ew.
-    + destruct HC as [C1 C2 C3 C4 C5 C6 C7 C9 C10 C8].
+    + destruct HC as [C1 C2 C3 C4 C5 C7 C9 C10 C8].
       destruct (request s) as [q|] eqn:Eq; try discriminate. inv_some.
       apply andb_true_iff in Ew. destruct Ew as [Econ Ew]. rewrite Econ in Ec. simpl in Ec.
       assert (rest = []) by (destruct rest; [reflexivity|discriminate]). subst rest.
@@ -324,8 +338,8 @@ Proof.
   pose proof (astep_summary _ _ _ Ha) as (Hrid & Hmono & Hask & Hgood).
   pose proof (after_parse_fields s q1 fresh) as F. cbv zeta in F, Hcase.
   set (s1 := after_parse s q1 fresh) in *.
-  destruct F as (F1 & F2 & F3 & F4 & F5 & F6 & F7 & F8 & F9 & F10 & F11 & F12 & F13 & F14).
-  destruct HC as [C1 C2 C3 C4 C5 C6 C7 C9 C10 C8].
+  destruct F as (F1 & F2 & F3 & F4 & F5 & F6 & F7 & F8 & F9 & F10 & F11 & F13 & F14).
+  destruct HC as [C1 C2 C3 C4 C5 C7 C9 C10 C8].
   (* no worker is sending while the I/O thread is in its loop *)
   assert (Hns : existsb is_wsend (active s) = false).
   { destruct (active s) as [|w0 rest] eqn:Eact; [reflexivity|].
@@ -380,7 +394,7 @@ Proof.
     + intros Hn. exfalso. apply (Hn more). exact G8.
     + rewrite Es. discriminate.
   - pose proof (io_complete_spec _ _ _ _ Hc) as S.
-    destruct S as (S1 & S2 & S3 & S4 & S5 & S6 & S7 & S8 & S9 & S10 & S11).
+    destruct S as (S1 & S2 & S3 & S4 & S5 & S6 & S8 & S9 & S10 & S11).
     assert (Es : is_sending s' = false).
     { unfold is_sending. rewrite S9, S4, F9, Hns. destruct more; reflexivity. }
     destruct S11 as [(q & Sq & Sc & Se & Sr & Ssc & Srs & Sqd)|[(q & Sq & Sc & Se & Sr & Ssc & Srs & Sqd)|(Sc & Sr & Ssc & Srs & Sqd)]].
